@@ -5,8 +5,10 @@ package main
 import (
 	"bytes"
 	"context"
+	"os"
 	"regexp"
 	"runtime"
+	"strconv"
 	"sync"
 	"time"
 )
@@ -44,7 +46,7 @@ type gate struct {
 	c    chan struct{}
 }
 
-func newGate() *gate { return &gate{c: make(chan struct{})} }
+func newGate() *gate     { return &gate{c: make(chan struct{})} }
 func (g *gate) wait()    { <-g.c }
 func (g *gate) release() { g.once.Do(func() { close(g.c) }) }
 
@@ -86,6 +88,12 @@ func allBlocked() bool {
 // quiesce waits until the scenario can make no further progress: every goroutine is blocked,
 // the log did not grow, observed twice in a row. pendingTimers must return true while a timer
 // the scenario depends on may still fire. Returns false if no quiescence within maxWait.
+// quiescePatience is read once from VERIF_PATIENCE_MS (0 = off).
+var quiescePatience = func() time.Duration {
+	ms, _ := strconv.Atoi(os.Getenv("VERIF_PATIENCE_MS"))
+	return time.Duration(ms) * time.Millisecond
+}()
+
 func quiesce(h *hlog, maxWait time.Duration, pendingTimers func() bool) bool {
 	deadline := time.Now().Add(maxWait)
 	stable := 0
@@ -96,6 +104,16 @@ func quiesce(h *hlog, maxWait time.Duration, pendingTimers func() bool) bool {
 		if (pendingTimers == nil || !pendingTimers()) && allBlocked() && n == last {
 			stable++
 			if stable >= 2 {
+				if quiescePatience > 0 {
+					// patience mode (VERIF_PATIENCE_MS): a quiescent state must stay quiescent; a call that
+					// gives up or moves on by itself after some time (a hidden timer) shows up here
+					time.Sleep(quiescePatience)
+					if !(allBlocked() && h.len() == n) {
+						stable = 0
+						last = h.len()
+						continue
+					}
+				}
 				return true
 			}
 		} else {
